@@ -3,21 +3,55 @@ import os
 import sys
 
 HERE = os.path.dirname(os.path.dirname(os.path.abspath(__file__)))
+REPO = os.environ.get('HEPH_REPO', '/repo')
 sys.path.insert(0, HERE)
 
 ID = 'C03'
-LEVEL = 'exploration'
-SIDECARS = []
-FUNCTIONS = []
-TRUSTED = []
-ASSUMPTIONS = [
-    'bounded stand-in only (labelled bounded, nothing is counted as proved): the real mutation is run on hand-built and '
-    'generated programs in the four languages and judged by an independent oracle written from the property statement '
-    '(structural before/after diff of every node attribute, three-valued local type inference, declarative subtyping with '
-    'assignment conversions over the program\'s class table, javac where a Java translation exists)',
+LEVEL = 'proof'
+SIDECARS = ['types_sub', 'types_ctor', 'mutations']
+FUNCTIONS = [
+    'src.transformations.type_erasure.TypeErasure.visit_func_decl',
+    'src.ir.ast.VariableDeclaration.omit_type',
+    'src.ir.ast.FunctionDeclaration.omit_type',
 ]
-NOT_UNDER_CONTRACT = ['src.transformations.type_erasure', 'src.transformations.type_overwriting',
-                      'src.analysis.type_dependency_analysis']
+TRUSTED = [
+    'slice mode (DESIGN 2.7) for TypeErasure.visit_func_decl: statements outside the subset are havocked; obligations sit at '
+    'the two attribute stores and at the omit_type() call',
+    'write census: syntactic analysis of the real AST of type_erasure.py, transformations/base.py and '
+    'type_dependency_analysis.py (attribute / subscript stores, augmented assignments, deletions, in-place mutator calls, '
+    'calls of IR methods that transitively write through self); aliasing between locals is not tracked beyond "bound to a '
+    'fresh object (literal, comprehension, copy, deepcopy)"; the analysis\' own type graph (names type_graph, c_type_graph) '
+    'and the cached callee link FunctionCall.type_parameters are allowed writes',
+    'DefaultVisitorUpdate._visit_node (src/ir/visitors.py) re-installs the children it visited: update_children with the '
+    'unchanged children is the identity (not proved: 23 overrides)',
+    'attribute reads, isinstance, len, getattr, str have no side effects',
+]
+ASSUMPTIONS = [
+    'proved: first sentence of the statement as a write frame -- the erasure writes into the program only by switching '
+    'can_infer_type_args of an instantiation ON and by calling omit_type() on the declaration of a candidate node, and '
+    'omit_type() (both overrides) sets exactly the declared type (var_type / ret_type) to None and nothing else; no other '
+    'store, mutator call or IR-mutating method call occurs in the three modules. '
+    'NOT proved (bounded): second sentence -- the removed annotations are what a compiler infers, i.e. the meaning of '
+    'is_combination_feasible and of the type dependency graph',
+]
+NOT_UNDER_CONTRACT = ['src.analysis.type_dependency_analysis.is_combination_feasible (meaning: bounded)',
+                      'src.analysis.type_dependency_analysis.TypeDependencyAnalysis (write census only)',
+                      'src.ir.visitors.DefaultVisitorUpdate', 'the 23 update_children overrides of src/ir/ast.py']
+
+
+def custom_proof(tier):
+    from pyvc import frontend, statecheck
+    fe = frontend.Frontend(REPO)
+    mut = statecheck.ir_mutator_names(fe)
+    out = []
+    for mod, allowed, roots, calls in (
+            ('src.transformations.type_erasure', {'can_infer_type_args'}, ('type_graph', 'c_type_graph'), {'omit_type'}),
+            ('src.transformations.base', set(), ('timeouted',), set()),
+            ('src.analysis.type_dependency_analysis', {'type_parameters'}, ('type_graph',), set())):
+        out += statecheck.store_census(fe, mod, allowed, allowed_roots=roots)
+        out += statecheck.mutator_call_census(fe, mod, calls, mut)
+    return out
+
 
 from props import C03_bounded as _b   # noqa: E402
 bounded = _b.bounded
